@@ -186,7 +186,9 @@ func botTable(r *rand.Rand, st *acStats, hid int, hands int, snapsOut *[]*pokert
 		for _, b := range bots {
 			b.ad.take()
 			gi := snap.GamePlayerIndex(pid(b.id))
-			b.act.GetTable().UpdateTableState(t)
+			// the bots are shown the snapshot that is recorded (the adapter copies what it is handed anyway); handing them
+			// the engine's live table would let its status flip between our reading and theirs
+			b.act.GetTable().UpdateTableState(snap)
 			calls := b.ad.take()
 			isIn, atTable := false, false
 			for _, ps := range snap.State.PlayerStates {
